@@ -138,7 +138,7 @@ def poly_judge(c):
     return None
 
 
-def static_check(ctx, mode, total,def static_check(ctx, mode, total, extra="", select=None, oracle_relevant=None, rule="", max_n=None,
+def static_check(ctx, mode, total, extra="", select=None, oracle_relevant=None, rule="", max_n=None,
                  finish=True, tag=None, extra_props=(), count_bound=False, judge=None, extra_stats=None, more_runs=(), spec_opts="", search_judge=None):
     """select(case) -> bool: which generated cases belong to this property.
     oracle_relevant(verdict string) -> bool: which oracle verdicts are violations of THIS property."""
